@@ -15,5 +15,8 @@ CONSTANTS
 CONSTRAINT NoWaiterLeftObs
 CONSTRAINT NoOrphanConnectionObs
 CONSTRAINT NoOrphanTaskObs
+CONSTRAINT NoWaiterLeftAtReturn
+CONSTRAINT NoOrphanConnectionAtReturn
+CONSTRAINT NoOrphanTaskAtReturn
 CONSTRAINT ConnectBackCleanObs
 CHECK_DEADLOCK FALSE
